@@ -1,6 +1,7 @@
 import Uflow.Driver.CodecMode
 import Uflow.Driver.HcMode
 import Uflow.Driver.EpMode
+import Uflow.Driver.RateMode
 import Uflow.Model.Heap
 
 /-! `uflow_driver <mode>`: runs a line-protocol script (stdin) against the Lean model and prints
@@ -63,4 +64,5 @@ def main (args : List String) : IO UInt32 := do
   | "codec" :: _ => loop stdin stdout () (fun _ t => ((), codecOp t)) (); return 0
   | "hc" :: _ => loop stdin stdout HcMachine.init hcOp HcMachine.init; return 0
   | "ep" :: _ => loop stdin stdout EpMachine.init epOp EpMachine.init; return 0
+  | "rate" :: _ => loop stdin stdout RateMachine.init rateOp RateMachine.init; return 0
   | _ => IO.eprintln "usage: uflow_driver <mode>"; return 2
